@@ -857,4 +857,342 @@ theorem opSpell_canon {opx op : Str} (h : OpSpell opx op) : OpSpell op op := by
   · exact .in2
   · exact .in2
 
+/-! ### the predicate steps, tree level -/
+
+/-- `[k op v]` on a dict that has `k`: descend to `parent[k]`, test its text, come back with `'..'` -/
+theorem find_cond_step (fuel : Nat) (root : Val) (entry rl : Bool) (q : Pos) (found tok k op : Str) (v : CondVal)
+    (rest : List Str) (cls : Cls) (kvs : List (Str × Val)) (kv : Val)
+    (hq : getAt root q = some (.dict cls kvs)) (hs : splitNameIndex tok = .ok ([], .cond k op v))
+    (hk : k ≠ sTextFn) (hl : lookup k kvs = some kv) :
+    findD (fuel + 1) root [] false entry (tok :: rest) (.at q) rl found
+      = findD fuel root [] false false (bracket (sTextFn ++ op ++ condValStr v) :: ['.', '.'] :: rest)
+          (.at (q ++ [Seg.key k])) rl (found ++ slash ++ k) := by
+  rw [findD]
+  simp only [Bool.false_and, Bool.false_eq_true, if_false, valOf_at, hq, hs, List.isEmpty_nil,
+    Idx.truthy, Bool.not_true, Bool.and_false, hk, hl, childRef]
+
+theorem find_cond_missing (fuel : Nat) (root : Val) (entry rl : Bool) (q : Pos) (found tok k op : Str) (v : CondVal)
+    (rest : List Str) (cls : Cls) (kvs : List (Str × Val))
+    (hq : getAt root q = some (.dict cls kvs)) (hs : splitNameIndex tok = .ok ([], .cond k op v))
+    (hk : k ≠ sTextFn) (hl : lookup k kvs = Option.none) :
+    findD (fuel + 1) root [] false entry (tok :: rest) (.at q) rl found
+      = .ok (root, { parent := .at q, nameIdx := Option.none, value := Val.none, found := found, notFound := some (tok :: rest) }) := by
+  rw [findD]
+  simp only [Bool.false_and, Bool.false_eq_true, if_false, valOf_at, hq, hs, List.isEmpty_nil,
+    Idx.truthy, Bool.not_true, Bool.and_false, hk, hl]
+
+/-- `k[cond]` on a dict without `k` -/
+theorem find_keycond_missing (fuel : Nat) (root : Val) (entry rl : Bool) (q : Pos) (found tok nm : Str) (idx : Idx)
+    (rest : List Str) (cls : Cls) (kvs : List (Str × Val))
+    (hq : getAt root q = some (.dict cls kvs)) (hs : splitNameIndex tok = .ok (nm, idx))
+    (hne : nm ≠ []) (hup : nm ≠ ['.', '.']) (hst : nm ≠ ['*']) (hl : lookup nm kvs = Option.none) :
+    findD (fuel + 1) root [] false entry (tok :: rest) (.at q) rl found
+      = .ok (root, { parent := .at q, nameIdx := Option.none, value := Val.none, found := found, notFound := some (tok :: rest) }) := by
+  have hne' : nm.isEmpty = false := isEmpty_false_of_ne hne
+  rw [findD]
+  simp only [Bool.false_and, Bool.false_eq_true, if_false, valOf_at, hq, hs, hne', Bool.not_false,
+    hup, hst, isList, isDict, Bool.not_true, hl, if_true]
+
+theorem split_up : splitNameIndex ['.', '.'] = .ok (['.', '.'], .none) := by decide
+
+theorem intStr_nat (j : Nat) : intStr (j : Int) = natStr j := rfl
+
+/-- the `'..'` step: the `found` text, minus its last piece, is resolved from the root to the element
+`qq[j]`; the walk continues there -/
+theorem find_up_step (fuel : Nat) (root : Val) (entry rl : Bool) (p : Pos) (pv : Val) (found : Str) (rest up : List Str)
+    (qq : Pos) (lc : Cls) (rs : List Val) (j : Nat) (rec : Val) (fnd' : Str)
+    (hpar : getAt root p = some pv)
+    (hup : ((splitChar '/' (fixBr found)).filter (fun t => !t.isEmpty)).dropLast = up)
+    (hinner : findD fuel root [] false false up (.at []) rl slash
+      = .ok (root, { parent := .at qq, nameIdx := some (bracket (intStr (j : Int))), value := rec, found := fnd', notFound := Option.none }))
+    (hqq : getAt root qq = some (.list lc rs)) (hj : j < rs.length) (hrest : rest ≠ []) :
+    findD (fuel + 1) root [] false entry (['.', '.'] :: rest) (.at p) rl found
+      = findD fuel root [] false false rest (.at (qq ++ [Seg.idx j])) rl fnd' := by
+  have hr : rest.length ≥ 1 := by cases rest with | nil => exact absurd rfl hrest | cons _ _ => simp
+  have hbne : (bracket (intStr (j : Int))).isEmpty = false := by simp [bracket]
+  rw [findD]
+  simp only [Bool.false_and, Bool.false_eq_true, if_false, valOf_at, hpar, split_up, List.isEmpty_cons,
+    Bool.not_false, Idx.truthy, if_true, hup, hinner, hqq, hbne, split_bracket_intStr, List.isEmpty_nil,
+    Bool.not_true, n0eval_intStr, pyGetIdx, normIdx_nat hj, childRef, hr, Bool.or_true, decide_true]
+
+/-- the comparison made by the `text()` branch for the normalised operator `op` -/
+def condTest (op : Str) (v : CondVal) (kv : Val) : Bool :=
+  let b := if op.drop 1 = ['='] then textEqCond kv v else pyInCond v kv
+  if op.take 1 = ['!'] then !b else b
+
+theorem opSpell_self_cases {op : Str} (h : OpSpell op op) : op = ['=', '='] ∨ op = ['!', '='] ∨ op = ['~', '~'] := by
+  generalize ho : op = op' at h
+  cases h <;> simp_all
+
+/-- the `[text() op v]` step on the node at `p` -/
+theorem find_text_step (fuel : Nat) (root : Val) (entry rl : Bool) (p : Pos) (kv : Val) (found tok op : Str) (v : CondVal)
+    (rest : List Str) (hp : getAt root p = some kv)
+    (hs : splitNameIndex tok = .ok ([], .cond sTextFn op v)) (hop : OpSpell op op) (hg : textGuard kv v = false) :
+    findD (fuel + 1) root [] false entry (tok :: rest) (.at p) rl found
+      = if condTest op v kv then findD fuel root [] false false rest (.at p) rl found
+        else .ok (root, { parent := .at p, nameIdx := Option.none, value := Val.none, found := found, notFound := some (tok :: rest) }) := by
+  rw [findD]
+  simp only [Bool.false_and, Bool.false_eq_true, if_false, valOf_at, hp, hs, List.isEmpty_nil,
+    Idx.truthy, Bool.not_true, Bool.and_false, if_true, hg]
+  rcases opSpell_self_cases hop with rfl | rfl | rfl
+  · cases hc : textEqCond kv v <;> simp [condTest, hc]
+  · cases hc : textEqCond kv v <;> simp [condTest, hc]
+  · cases hc : pyInCond v kv <;> simp [condTest, hc]
+
+/-! ### one record of a predicate selection (records under a key of the root) -/
+
+theorem fixBr_keybr_key (name e k : Str) (hname : PlainKey name) (he : ∀ c ∈ e, c ≠ ']') (hk : PlainKey k) :
+    fixBr (joinSlash [name ++ bracket e, k]) = joinSlash [name ++ bracket e, k] := by
+  have h2 : joinSlash [name ++ bracket e, k] = (name ++ '[' :: e) ++ ']' :: ('/' :: k) := by simp [joinSlash, bracket]
+  rw [h2]
+  apply fixBr_one_rb
+  · intro c hc
+    simp only [List.mem_append, List.mem_cons] at hc
+    rcases hc with hc | hc | hc
+    · exact hname.noRB c hc
+    · subst hc; decide
+    · exact he c hc
+  · intro c hc
+    simp only [List.mem_cons] at hc
+    rcases hc with hc | hc
+    · subst hc; decide
+    · exact hk.noRB c hc
+  · simp
+
+/-- **`'..'` then `f`.**  After the test on `name[j]/k`, the step `'..'` re-resolves `//name[j]` from the
+root and `f` is looked up in that record. -/
+theorem up_tail (cls : Cls) (kvs : List (Str × Val)) (name k f : Str) (lc : Cls) (rs : List Val) (j : Nat) (rl : Bool)
+    (c : Cls) (kvs' : List (Str × Val)) (p : Pos) (pv : Val)
+    (hname : PlainKey name) (hk : PlainKey k) (hf : KeyTok f)
+    (hl : lookup name kvs = some (.list lc rs)) (hj : rs[j]? = some (.dict c kvs'))
+    (hp : getAt (.dict cls kvs) p = some pv) (fuel : Nat) (hfuel : fuel ≥ 3) :
+    ∃ r, findD fuel (.dict cls kvs) [] false false [['.', '.'], f] (.at p) rl
+          (slash ++ slash ++ name ++ bracket (intStr (j : Int)) ++ slash ++ k) = .ok (.dict cls kvs, r)
+      ∧ r.isFound = (lookup f kvs').isSome ∧ ∀ x, lookup f kvs' = some x → r.value = x := by
+  obtain ⟨g, rfl⟩ : ∃ g, fuel = g + 3 := ⟨fuel - 3, by omega⟩
+  have hlt : j < rs.length := by
+    rcases Nat.lt_or_ge j rs.length with h | h
+    · exact h
+    · rw [List.getElem?_eq_none h] at hj; cases hj
+  have hqq : getAt (.dict cls kvs) ([] ++ [Seg.key name]) = some (.list lc rs) := getAt_root_key cls kvs name _ hl
+  -- the pieces of `found`
+  have hfound : slash ++ slash ++ name ++ bracket (intStr (j : Int)) ++ slash ++ k
+      = slash ++ slash ++ joinSlash [name ++ bracket (natStr j), k] := by
+    simp [joinSlash, slash, intStr_nat]
+  have hup : ((splitChar '/' (fixBr (slash ++ slash ++ name ++ bracket (intStr (j : Int)) ++ slash ++ k))).filter
+      (fun t => !t.isEmpty)).dropLast = [name ++ bracket (natStr j)] := by
+    rw [hfound, up_joinSlash _ (by simp) (fixBr_keybr_key name (natStr j) k hname (natStr_noRB j) hk)]
+    · simp
+    · intro q hq c hc
+      simp only [List.mem_cons, List.not_mem_nil, or_false] at hq
+      rcases hq with rfl | rfl
+      · simp only [List.mem_append] at hc
+        rcases hc with hc | hc
+        · exact hname.noSlash c hc
+        · exact bracket_noSlash j c hc
+      · exact hk.noSlash c hc
+    · intro q hq
+      simp only [List.mem_cons, List.not_mem_nil, or_false] at hq
+      rcases hq with rfl | rfl
+      · simp [bracket]
+      · exact hk.ne
+  -- the inner resolution of `name[j]` from the root
+  have hkit := keyIdxTok_of hname (natStr_idxExpr j) (natStr_ne_special j).1 (natStr_ne_special j).2 (n0eval_nat j)
+  have hinner : findD (g + 2) (.dict cls kvs) [] false false [name ++ bracket (natStr j)] (.at []) rl slash
+      = .ok (.dict cls kvs, { parent := .at ([] ++ [Seg.key name]), nameIdx := some (bracket (intStr (j : Int))), value := Val.dict c kvs', found := slash ++ slash ++ name, notFound := Option.none }) := by
+    rw [find_keyidx_step (g + 1) _ false rl [] slash _ name (natStr j) (j : Int) [] cls kvs _ rfl hkit hl]
+    rw [find_idx_last g _ false rl _ _ (bracket (natStr j)) (natStr j) (j : Int) lc rs j _ hqq hkit.inner
+      (normIdx_nat hlt) hj]
+  rw [find_up_step (g + 2) _ false rl p pv _ [f] _ ([] ++ [Seg.key name]) lc rs j _ _ hp hup hinner hqq hlt (by simp)]
+  have hq' : getAt (.dict cls kvs) ([] ++ [Seg.key name] ++ [Seg.idx j]) = some (.dict c kvs') := by
+    rw [getAt_snoc, hqq]; simp [child, hj]
+  cases hlf : lookup f kvs' with
+  | none =>
+    rw [find_key_missing (g + 1) _ false rl _ _ f [] c kvs' hq' hf hlf]
+    exact ⟨_, rfl, by simp [Res.isFound], by intro x hx; cases hx⟩
+  | some x =>
+    rw [find_key_last (g + 1) _ false rl _ _ f c kvs' x hq' hf hlf]
+    exact ⟨_, rfl, by simp [Res.isFound], by intro x' hx'; cases hx'; rfl⟩
+
+/-- what a record contributes to a predicate selection -/
+def condOutcome (k f op : Str) (v : CondVal) : Val → Option Val
+  | .dict _ kvs' =>
+    match lookup k kvs' with
+    | Option.none => Option.none
+    | some kv => if condTest op v kv then lookup f kvs' else Option.none
+  | _ => Option.none
+
+/-- **`[text() op v]`, `'..'`, `f`** on the value of `k` of record `j` -/
+theorem text_tail (cls : Cls) (kvs : List (Str × Val)) (name k f op tok : Str) (v : CondVal) (lc : Cls) (rs : List Val)
+    (j : Nat) (rl : Bool) (c : Cls) (kvs' : List (Str × Val)) (kv : Val)
+    (hname : PlainKey name) (hk : PlainKey k) (hf : KeyTok f)
+    (hl : lookup name kvs = some (.list lc rs)) (hj : rs[j]? = some (.dict c kvs')) (hlk : lookup k kvs' = some kv)
+    (hs : splitNameIndex tok = .ok ([], .cond sTextFn op v)) (hop : OpSpell op op) (hg : textGuard kv v = false)
+    (fuel : Nat) (hfuel : fuel ≥ 4) :
+    ∃ r, findD fuel (.dict cls kvs) [] false false [tok, ['.', '.'], f] (.at ([] ++ [Seg.key name] ++ [Seg.idx j] ++ [Seg.key k])) rl
+          (slash ++ slash ++ name ++ bracket (intStr (j : Int)) ++ slash ++ k) = .ok (.dict cls kvs, r)
+      ∧ r.isFound = (condOutcome k f op v (.dict c kvs')).isSome ∧ ∀ x, condOutcome k f op v (.dict c kvs') = some x → r.value = x := by
+  obtain ⟨g, rfl⟩ : ∃ g, fuel = g + 1 := ⟨fuel - 1, by omega⟩
+  have hqq : getAt (.dict cls kvs) ([] ++ [Seg.key name]) = some (.list lc rs) := getAt_root_key cls kvs name _ hl
+  have hq' : getAt (.dict cls kvs) ([] ++ [Seg.key name] ++ [Seg.idx j]) = some (.dict c kvs') := by
+    rw [getAt_snoc, hqq]; simp [child, hj]
+  have hp : getAt (.dict cls kvs) ([] ++ [Seg.key name] ++ [Seg.idx j] ++ [Seg.key k]) = some kv := by
+    rw [getAt_snoc, hq']; simp [child, hlk]
+  rw [find_text_step g _ false rl _ kv _ tok op v _ hp hs hop hg]
+  cases hc : condTest op v kv with
+  | false =>
+    simp only [Bool.false_eq_true, if_false]
+    exact ⟨_, rfl, by simp [Res.isFound, condOutcome, hlk, hc], by intro x hx; simp [condOutcome, hlk, hc] at hx⟩
+  | true =>
+    simp only [if_true]
+    obtain ⟨r, hr, h1, h2⟩ := up_tail cls kvs name k f lc rs j rl c kvs' _ kv hname hk hf hl hj hp g (by omega)
+    exact ⟨r, hr, by simpa [condOutcome, hlk, hc] using h1, by intro x hx; apply h2; simpa [condOutcome, hlk, hc] using hx⟩
+
+/-- record `j` of `name[k op v]/f` (inside the loop: `[j]`, `[k op 'v']`, `f`) -/
+theorem cond_elem (cls : Cls) (kvs : List (Str × Val)) (name k f op t1 t2 : Str) (v : CondVal) (lc : Cls) (rs : List Val)
+    (j : Nat) (rl : Bool) (c : Cls) (kvs' : List (Str × Val))
+    (hname : PlainKey name) (hk : PlainKey k) (hkt : k ≠ sTextFn) (hf : KeyTok f)
+    (hl : lookup name kvs = some (.list lc rs)) (hj : rs[j]? = some (.dict c kvs'))
+    (hs1 : splitNameIndex t1 = .ok ([], .cond k op v))
+    (ht2 : t2 = bracket (sTextFn ++ op ++ condValStr v))
+    (hs2 : splitNameIndex t2 = .ok ([], .cond sTextFn op v)) (hop : OpSpell op op)
+    (hg : ∀ kv, lookup k kvs' = some kv → textGuard kv v = false)
+    (fuel : Nat) (hfuel : fuel ≥ 6) :
+    ∃ r, findD fuel (.dict cls kvs) [] false false [bracket (natStr j), t1, f] (.at ([] ++ [Seg.key name])) rl
+          (slash ++ slash ++ name) = .ok (.dict cls kvs, r)
+      ∧ r.isFound = (condOutcome k f op v (.dict c kvs')).isSome ∧ ∀ x, condOutcome k f op v (.dict c kvs') = some x → r.value = x := by
+  obtain ⟨g, rfl⟩ : ∃ g, fuel = g + 2 := ⟨fuel - 2, by omega⟩
+  have hlt : j < rs.length := by
+    rcases Nat.lt_or_ge j rs.length with h | h
+    · exact h
+    · rw [List.getElem?_eq_none h] at hj; cases hj
+  have hqq : getAt (.dict cls kvs) ([] ++ [Seg.key name]) = some (.list lc rs) := getAt_root_key cls kvs name _ hl
+  have hq' : getAt (.dict cls kvs) ([] ++ [Seg.key name] ++ [Seg.idx j]) = some (.dict c kvs') := by
+    rw [getAt_snoc, hqq]; simp [child, hj]
+  rw [find_idx_step (g + 1) _ false rl _ _ _ (natStr j) (j : Int) [t1, f] (by simp) lc rs j hqq (natStr_idxTok j)
+    (normIdx_nat hlt)]
+  cases hlk : lookup k kvs' with
+  | none =>
+    rw [find_cond_missing g _ false rl _ _ t1 k op v [f] c kvs' hq' hs1 hkt hlk]
+    exact ⟨_, rfl, by simp [Res.isFound, condOutcome, hlk], by intro x hx; simp [condOutcome, hlk] at hx⟩
+  | some kv =>
+    rw [find_cond_step g _ false rl _ _ t1 k op v [f] c kvs' kv hq' hs1 hkt hlk, ← ht2]
+    exact text_tail cls kvs name k f op t2 v lc rs j rl c kvs' kv hname hk hf hl hj hlk hs2 hop (hg kv hlk) g (by omega)
+
+/-- record `j` of `name/k[text() op v]/../f` (inside the loop: `[j]`, `k[text() op v]`, `'..'`, `f`) -/
+theorem textform_elem (cls : Cls) (kvs : List (Str × Val)) (name k f op t1 t2 : Str) (v : CondVal) (lc : Cls) (rs : List Val)
+    (j : Nat) (rl : Bool) (c : Cls) (kvs' : List (Str × Val))
+    (hname : PlainKey name) (hk : PlainKey k) (hf : KeyTok f)
+    (hl : lookup name kvs = some (.list lc rs)) (hj : rs[j]? = some (.dict c kvs'))
+    (hs1 : splitNameIndex t1 = .ok (k, .cond sTextFn op v))
+    (ht2 : t2 = bracket (sTextFn ++ op ++ ['\''] ++ condValStr v ++ ['\'']))
+    (hs2 : splitNameIndex t2 = .ok ([], .cond sTextFn op v)) (hop : OpSpell op op)
+    (hg : ∀ kv, lookup k kvs' = some kv → textGuard kv v = false)
+    (fuel : Nat) (hfuel : fuel ≥ 6) :
+    ∃ r, findD fuel (.dict cls kvs) [] false false [bracket (natStr j), t1, ['.', '.'], f] (.at ([] ++ [Seg.key name])) rl
+          (slash ++ slash ++ name) = .ok (.dict cls kvs, r)
+      ∧ r.isFound = (condOutcome k f op v (.dict c kvs')).isSome ∧ ∀ x, condOutcome k f op v (.dict c kvs') = some x → r.value = x := by
+  obtain ⟨g, rfl⟩ : ∃ g, fuel = g + 2 := ⟨fuel - 2, by omega⟩
+  have hlt : j < rs.length := by
+    rcases Nat.lt_or_ge j rs.length with h | h
+    · exact h
+    · rw [List.getElem?_eq_none h] at hj; cases hj
+  have hqq : getAt (.dict cls kvs) ([] ++ [Seg.key name]) = some (.list lc rs) := getAt_root_key cls kvs name _ hl
+  have hq' : getAt (.dict cls kvs) ([] ++ [Seg.key name] ++ [Seg.idx j]) = some (.dict c kvs') := by
+    rw [getAt_snoc, hqq]; simp [child, hj]
+  rw [find_idx_step (g + 1) _ false rl _ _ _ (natStr j) (j : Int) [t1, ['.', '.'], f] (by simp) lc rs j hqq (natStr_idxTok j)
+    (normIdx_nat hlt)]
+  cases hlk : lookup k kvs' with
+  | none =>
+    rw [find_keycond_missing g _ false rl _ _ t1 k _ [['.', '.'], f] c kvs' hq' hs1 hk.ne hk.notUp hk.keyTok.notStar hlk]
+    exact ⟨_, rfl, by simp [Res.isFound, condOutcome, hlk], by intro x hx; simp [condOutcome, hlk] at hx⟩
+  | some kv =>
+    rw [find_keycond_step g _ false rl _ _ t1 k sTextFn op v [['.', '.'], f] c kvs' kv hq' hs1 hk.ne hk.notUp
+      hk.keyTok.notStar hlk, ← ht2]
+    exact text_tail cls kvs name k f op t2 v lc rs j rl c kvs' kv hname hk hf hl hj hlk hs2 hop (hg kv hlk) g (by omega)
+
+/-- the loop over the records for either form (`rest` = the steps applied to each record) -/
+theorem cond_loop (cls : Cls) (kvs : List (Str × Val)) (name k f op : Str) (v : CondVal) (rs : List Val)
+    (rl : Bool) (rest all : List Str) (hall : all ≠ []) (hrs : ∀ r ∈ rs, isDict r = true)
+    (helem : ∀ (j : Nat) (c : Cls) (kvs' : List (Str × Val)), rs[j]? = some (.dict c kvs') → ∀ fu ≥ 6,
+      ∃ r, findD fu (.dict cls kvs) [] false false (bracket (natStr j) :: rest) (.at ([] ++ [Seg.key name])) rl
+            (slash ++ slash ++ name) = .ok (.dict cls kvs, r)
+        ∧ r.isFound = (condOutcome k f op v (.dict c kvs')).isSome ∧ ∀ x, condOutcome k f op v (.dict c kvs') = some x → r.value = x)
+    (fuel : Nat) (hfuel : fuel ≥ rs.length + 7) :
+    ∃ r, starIdx fuel (.dict cls kvs) [] false rs.length 0 rest (.at ([] ++ [Seg.key name])) rl (slash ++ slash ++ name) []
+          Option.none all = .ok (.dict cls kvs, r) ∧
+      r.isFound = !(somes (rs.map (condOutcome k f op v))).isEmpty ∧
+      (r.isFound = true → r.value = collect rl (somes (rs.map (condOutcome k f op v)))) := by
+  have := starIdx_loop (.dict cls kvs) [] false rest (.at ([] ++ [Seg.key name])) rl (slash ++ slash ++ name) all hall 6
+    (rs.map (condOutcome k f op v)) 0 rs.length [] Option.none fuel (by simp) ?_ (by simp; omega) (by simp)
+  · simpa using this
+  · intro j hj fu hfu
+    have hj' : j < rs.length := by simpa using hj
+    have hd := hrs _ (List.getElem_mem hj')
+    cases hrj : rs[j] with
+    | dict c kvs' =>
+      have hget : rs[j]? = some (.dict c kvs') := by rw [List.getElem?_eq_getElem hj', hrj]
+      obtain ⟨r, hr, h1, h2⟩ := helem j c kvs' hget fu hfu
+      refine ⟨r, by simpa using hr, ?_, ?_⟩
+      · simp [hrj, h1]
+      · intro x hx; apply h2; simpa [hrj] using hx
+    | _ => rw [hrj] at hd; simp [isDict] at hd
+
+/-- a condition step applied to a non-empty list: `[*]` is supplied -/
+theorem find_cond_on_list (fuel : Nat) (root : Val) (entry rl : Bool) (q : Pos) (found tok k op : Str) (v : CondVal)
+    (rest : List Str) (lc : Cls) (xs : List Val) (hq : getAt root q = some (.list lc xs)) (hne : xs ≠ [])
+    (hs : splitNameIndex tok = .ok ([], .cond k op v)) (hk : k ≠ sTextFn) :
+    findD (fuel + 1) root [] false entry (tok :: rest) (.at q) rl found
+      = findD fuel root [] false false (bracket ['*'] :: tok :: rest) (.at q) rl found := by
+  cases xs with
+  | nil => exact absurd rfl hne
+  | cons x xs =>
+    rw [findD]
+    simp only [Bool.false_and, Bool.false_eq_true, if_false, valOf_at, hq, hs, List.isEmpty_nil,
+      Idx.truthy, Bool.not_true, Bool.and_false, hk]
+
+/-- a condition step applied to an empty list: `IndexError` -/
+theorem find_cond_on_empty (fuel : Nat) (root : Val) (entry rl : Bool) (q : Pos) (found tok k op : Str) (v : CondVal)
+    (rest : List Str) (lc : Cls) (hq : getAt root q = some (.list lc []))
+    (hs : splitNameIndex tok = .ok ([], .cond k op v)) (hk : k ≠ sTextFn) :
+    findD (fuel + 1) root [] false entry (tok :: rest) (.at q) rl found = .error .IndexError := by
+  rw [findD]
+  simp only [Bool.false_and, Bool.false_eq_true, if_false, valOf_at, hq, hs, List.isEmpty_nil,
+    Idx.truthy, Bool.not_true, Bool.and_false, hk]
+
+/-- a field name usable in the predicate forms -/
+structure FieldKey (k : Str) : Prop where
+  plain : PlainKey k
+  cond : CondKey k
+  notText : k ≠ sTextFn
+
+/-- `name[k op v]/f` from the root, non-empty record list -/
+theorem cond_find (cls : Cls) (kvs : List (Str × Val)) (name k f opx op vq v : Str) (lc : Cls) (rs : List Val) (rl : Bool)
+    (hname : PlainKey name) (hk : FieldKey k) (hf : PlainKey f) (hop : OpSpell opx op) (hlit : LitSpell vq v)
+    (hv : PlainLit v) (hl : lookup name kvs = some (.list lc rs)) (hrs : ∀ r ∈ rs, isDict r = true) (hne : rs ≠ [])
+    (hg : ∀ c kvs' kv, Val.dict c kvs' ∈ rs → lookup k kvs' = some kv → textGuard kv (.str v) = false)
+    (fuel : Nat) (hfuel : fuel ≥ rs.length + 10) :
+    ∃ r, findD fuel (.dict cls kvs) [] false true [name ++ bracket (k ++ opx ++ vq), f] (.at []) rl slash
+          = .ok (.dict cls kvs, r) ∧
+      r.isFound = !(somes (rs.map (condOutcome k f op (.str v)))).isEmpty ∧
+      (r.isFound = true → r.value = collect rl (somes (rs.map (condOutcome k f op (.str v))))) := by
+  obtain ⟨g, rfl⟩ : ∃ g, fuel = g + 3 := ⟨fuel - 3, by omega⟩
+  have hopc := opSpell_canon hop
+  have hs0 := split_cond name k opx op vq v (Or.inr hname) hk.cond hop hlit hv
+  have hs1 : splitNameIndex (bracket (k ++ op ++ ['\''] ++ condValStr (.str v) ++ ['\''])) = .ok ([], .cond k op (.str v)) := by
+    have := split_cond [] k op op _ v (Or.inl rfl) hk.cond hopc (.sq v) hv
+    simpa [condValStr, List.append_assoc] using this
+  have hs2 : splitNameIndex (bracket (sTextFn ++ op ++ condValStr (.str v))) = .ok ([], .cond sTextFn op (.str v)) := by
+    have := split_cond [] sTextFn op op _ v (Or.inl rfl) condKey_text hopc (.bare v) hv
+    simpa [condValStr, List.append_assoc] using this
+  have hqq : getAt (.dict cls kvs) ([] ++ [Seg.key name]) = some (.list lc rs) := getAt_root_key cls kvs name _ hl
+  rw [find_keycond_step (g + 2) _ true rl [] slash _ name k op (.str v) [f] cls kvs _ rfl hs0 hname.ne hname.notUp
+    hname.keyTok.notStar hl]
+  rw [find_cond_on_list (g + 1) _ false rl _ _ _ k op (.str v) [f] lc rs hqq hne hs1 hk.notText]
+  rw [find_star_step g _ false rl _ _ _ _ lc rs hqq split_star]
+  apply cond_loop cls kvs name k f op (.str v) rs rl _ _ (by simp) hrs _ g (by omega)
+  intro j c kvs' hj fu hfu
+  exact cond_elem cls kvs name k f op _ _ (.str v) lc rs j rl c kvs' hname hk.plain hk.notText hf.keyTok hl hj hs1 rfl hs2
+    hopc (fun kv hkv => hg c kvs' kv (List.mem_of_getElem? hj) hkv) fu hfu
+
 end N0.XPath
